@@ -43,6 +43,39 @@ class AnyOf:
         return f'AnyOf({self.alts!r})'
 
 
+class GroupSeq:
+    """Concatenation of groups; inside a group any order (ties the statement leaves open)."""
+
+    def __init__(self, groups):
+        self.groups = [list(g) for g in groups if g]
+
+    def __repr__(self):
+        return f'GroupSeq({self.groups!r})'
+
+
+class OwnThenBorrowed:
+    """A duplicate-free list: own targets (any order) then borrowed-only targets (any order)."""
+
+    def __init__(self, own, borrowed):
+        self.own = list(own)
+        so = set(own)
+        self.borrowed = [x for x in borrowed if x not in so]
+
+    def __repr__(self):
+        return f'OwnThenBorrowed({self.own!r}, {self.borrowed!r})'
+
+
+class RelMap:
+    """relation_map(): rows [name, source id, target id, lexicon, dc:type, metadata, target key];
+    the first five are the dict key.  Rows with one key collapse to one of their candidates."""
+
+    def __init__(self, rows):
+        self.rows = rows
+
+    def __repr__(self):
+        return f'RelMap({self.rows!r})'
+
+
 def _key(x):
     return json.dumps(jsonable(x), sort_keys=True, ensure_ascii=True, default=repr)
 
@@ -62,31 +95,46 @@ def jsonable(x):
         return {'Merge': jsonable(x.lists)}
     if isinstance(x, AnyOf):
         return {'AnyOf': jsonable(x.alts)}
+    if isinstance(x, GroupSeq):
+        return {'GroupSeq': jsonable(x.groups)}
+    if isinstance(x, OwnThenBorrowed):
+        return {'own': jsonable(x.own), 'borrowed': jsonable(x.borrowed)}
+    if isinstance(x, RelMap):
+        return {'RelMap': jsonable(x.rows)}
     return x
 
 
 def _is_merge(actual, lists):
-    """Is ``actual`` an interleaving of ``lists`` keeping each list's order? (exact for equal items via search)"""
+    """Is ``actual`` an interleaving of ``lists`` keeping each list's order?  Elements of the expected
+    lists may themselves contain shape markers, so equality is ``diff(...) is None``."""
     lists = [list(x) for x in lists]
     total = sum(len(x) for x in lists)
     if len(actual) != total:
         return False
-    # depth-first with memo on positions
-    from functools import lru_cache
-    keys_actual = [_key(a) for a in actual]
-    keys_lists = [[_key(a) for a in x] for x in lists]
+    memo = {}
+    eq = {}
 
-    @lru_cache(maxsize=None)
+    def same(i, j, pos):
+        kk = (i, j, pos)
+        if kk not in eq:
+            eq[kk] = diff(lists[i][j], actual[pos]) is None
+        return eq[kk]
+
     def go(pos, idx):
-        if pos == len(keys_actual):
+        if pos == total:
             return True
-        for i, li in enumerate(keys_lists):
+        kk = (pos, idx)
+        if kk in memo:
+            return memo[kk]
+        ok = False
+        for i, li in enumerate(lists):
             j = idx[i]
-            if j < len(li) and li[j] == keys_actual[pos]:
-                nxt = idx[:i] + (j + 1,) + idx[i + 1:]
-                if go(pos + 1, nxt):
-                    return True
-        return False
+            if j < len(li) and same(i, j, pos):
+                if go(pos + 1, idx[:i] + (j + 1,) + idx[i + 1:]):
+                    ok = True
+                    break
+        memo[kk] = ok
+        return ok
 
     return go(0, tuple(0 for _ in lists))
 
@@ -118,6 +166,53 @@ def diff(expected, actual, path=''):
             return (path, expected, actual)
         if not _is_merge(list(actual), expected.lists):
             return (path + '{merge}', expected.lists, actual)
+        return None
+    if isinstance(expected, GroupSeq):
+        if not isinstance(actual, (list, tuple)):
+            return (path, expected, actual)
+        if len(actual) != sum(len(g) for g in expected.groups):
+            return (path + '{len}', expected, actual)
+        pos = 0
+        for g in expected.groups:
+            part = list(actual[pos:pos + len(g)])
+            if sorted(_key(x) for x in g) != sorted(_key(x) for x in part):
+                return (path + '{order}', expected, actual)
+            pos += len(g)
+        return None
+    if isinstance(expected, OwnThenBorrowed):
+        if not isinstance(actual, (list, tuple)):
+            return (path, expected, actual)
+        ak = [_key(x) for x in actual]
+        if len(set(ak)) != len(ak):
+            return (path + '{duplicates}', expected, actual)
+        own = {_key(x) for x in expected.own}
+        bor = {_key(x) for x in expected.borrowed}
+        if set(ak) != own | bor:
+            return (path + '{set}', expected, actual)
+        last_own = max((i for i, x in enumerate(ak) if x in own), default=-1)
+        first_bor = min((i for i, x in enumerate(ak) if x in bor), default=len(ak))
+        if last_own > first_bor:
+            return (path + '{own-before-borrowed}', expected, actual)
+        return None
+    if isinstance(expected, RelMap):
+        if not isinstance(actual, (list, tuple)):
+            return (path, expected, actual)
+        cands = {}
+        for row in expected.rows:
+            cands.setdefault(_key(row[:5]), []).append(_key(row[5:]))
+        seen = set()
+        for row in actual:
+            kk = _key(list(row[:5]))
+            if kk in seen:
+                return (path + '{duplicate-key}', expected, actual)
+            seen.add(kk)
+            if kk not in cands:
+                return (path + '{surplus-relation}', expected.rows, row)
+            if _key(list(row[5:])) not in cands[kk]:
+                return (path + '{relation-value}', [r for r in expected.rows if _key(r[:5]) == kk], row)
+        if seen != set(cands):
+            missing = [r for r in expected.rows if _key(r[:5]) not in seen]
+            return (path + '{missing-relation}', missing[:3], actual)
         return None
     if isinstance(expected, dict):
         if not isinstance(actual, dict):
